@@ -490,7 +490,14 @@ func vDataFileWriteAt(df *DataFile, b []byte, off int64) (int, error) {
 	vfsInData = true
 	defer func() { vfsInData = false }()
 	if crash || fail {
-		cut := vChoose(len(b) + 1)
+		// a crash cuts the write at every byte; an injected error uses representative partial lengths
+		cut := 0
+		if crash {
+			cut = vChoose(len(b) + 1)
+		} else {
+			cuts := []int{0, 1, len(b) / 2, len(b) - 1, len(b)}
+			cut = cuts[vChoose(len(cuts))]
+		}
 		if cut > 0 {
 			df.rwManager.WriteAt(b[:cut], off)
 		}
@@ -608,3 +615,5 @@ func vImageLoad(dir string)        {}
 func vPredictedInt(tag string) int { return 0 }
 
 func vSetMsMode(m int) { vMsMode = m }
+
+func vImageObserve(dir string) {}
